@@ -42,7 +42,8 @@ CLAIMED["C12"] = {
             "{-1,0,size-1,size,size+1,huge}) checking WithinModel/Total, and exports one record per transition; every transition is "
             "replayed as its own test through the script API in an ASan/UBSan build (result or exception, and full contents afterwards), "
             "followed by seeded walks of 3-10 operations through the same graph."
-            " Index arguments of [] also arrive as size_t, long and unsigned int (idx_t transitions).",
+            " Index arguments of [] also arrive as size_t, long and unsigned int (idx_t transitions); substr also takes the size_type maximum "
+            "(-1: the to-the-end idiom, where pos + len wraps around) as length and as position.",
     "note": "Reads/writes outside the container are observed by ASan on the replayed cases (TLC decides the abstract bounds only); "
             "range views are exercised only while their container is not structurally modified (excluded by the property).",
     "technique": "TLA+ state graph (TLC) with one implementation test per transition, replayed under ASan",
@@ -192,13 +193,13 @@ CLAIMED["C06"] = {
             "references, shared_ptr, a Base that really is a Derived, a const Base that is not) and records which overload was entered, how "
             "often and what it received, plus boxed_cast<T> of every argument kind to 13 forms, wrong-arity calls, data-member accessors by four routes, and "
             "seven forms of a parameter reached through a user type_conversion<From, To> (alone, beside a From overload, beside a catch-all) in engines "
-            "with and without the conversion; TLC checks every one of "
+            "with and without the conversion, and std::vector<int> parameters reached through vector_conversion from script Vectors of several element kinds; TLC checks every one of "
             "the ~16,000 rows against the laws of Dispatch.tla (TypeSafe/ConstSafe, ExactWins, ExactlyOnce, NoMatchNoEntry, "
             "ReceivedIsConverted, CastSound) and against a transcription of function_less_than/dispatch/dispatch_with_conversions/boxed_cast, "
             "and checks (SpecSound) that the transcription itself satisfies the laws.",
     "note": "A difference from the transcription that still satisfies the laws is reported as drift in the evidence, not as a violation. "
             "Known finding: an exception of a swallowed type thrown from inside an entered function makes the loop enter a second overload. "
-            "std::function wrappers and vector/map conversions are not in the catalogue yet.",
+            "std::function wrappers and map conversions are not in the catalogue yet.",
     "technique": "trace validation by TLC of recorded overload resolutions and casts against a TLA+ specification (laws + transcription)",
     "design": "5 C06",
 }
@@ -214,7 +215,7 @@ CLAIMED["C03"] = {
             "evaluates every program with the reference (output lines, final value, error class, and the reference's own scope "
             "balance) and the driver runs the same program in the real engine with the optimizing and the unoptimized parser; all "
             "three must agree."
-            " The generator now also draws try / catch (typed and untyped) / finally / throw with engine errors and control flow leaving through handlers, several overlapping guarded overloads per name, operands with visible effects under && || ?:, and string interpolation; a fixed program pins the repaired return-value-flag defect.",
+            " The generator now also draws try / catch (typed and untyped) / finally / throw with engine errors and control flow leaving through handlers, several overlapping guarded overloads per name, operands with visible effects under && || ?:, and string interpolation; fixed programs pin the repaired return-value-flag defect and the per-iteration binding of a ranged-for variable captured by a closure.",
     "note": "Sampling over the generator's program space (1,500 programs quick / 20,000 thorough per seed), not exhaustive; programs whose "
             "integers grow beyond +-30000 or that exhaust the reference's loop fuel are dropped; string ordering, floats, try/catch "
             "(C10), size_t arithmetic and modification of a container during iteration (C12 exclusion) are not generated; trusted: the "
@@ -230,7 +231,8 @@ CLAIMED["C02"] = {
             "reach every rewrite and over generated programs, and a pinned configuration (DropIds=TRUE, the pre-fix Dead_Code) must be "
             "rejected so the property is not vacuous. The same programs and a list of textual trigger programs are then evaluated in "
             "the real engine with the default optimizer and with the identity optimizer (Optimizer<NopPass>), both compared to each "
-            "other and to the reference.",
+            "other and to the reference. The textual triggers include declarations whose initializer mentions the declared name, and compiled loops "
+            "whose counter leaves the loop or which are entered again while they run.",
     "note": "Sampling over generated programs plus hand-written triggers per pass; the equivalence is observed on output, final value "
             "and error class, not on timing or allocation. Known finding: declarations made by eval/use inside a block the Block pass "
             "made scopeless.",
